@@ -43,7 +43,27 @@ def model_col():
     return {'cells': cells, 'arrays': {}, 'names': {'%s|TOTAL' % M.B: cell('S', 'C1')}, 'sheets': [[M.B, 'S'], [M.B, 'T']]}
 
 
-FIXED = dict(M.MODELS, anchor=model_anchor, col=model_col)
+def model_samesheet(H=M.B, C=M.C):
+    """two books that both have a sheet called Data, with different used extents (H small, C large); a name that lives
+    in the linked book.  Built in both name orders: the completion work-list is sorted by node id."""
+    cell = lambda s, c, b=H: ['cell', b, s, c]
+    rng = lambda s, r, b=H: ['rng', b, s, r]
+    K = lambda s, c, b=H: M.W.key(b, s, c)
+    op, fn, num, const = M.op, M.fn, M.num, M.const
+    cells = {K('Data', 'B1'): const(('n', 1.0)), K('Data', 'B2'): const(('n', 2.0))}
+    for r in range(1, 11):
+        cells[K('Data', 'A%d' % r, C)] = const(('n', float(r)))
+    cells[K('Data', 'D12', C)] = op('*', ['name', C, 'TENTH'], num(3))
+    cells.update({
+        K('Data', 'A1'): fn('SUM', rng('Data', 'A1:A10', C)),
+        K('Data', 'A2'): fn('SUM', rng('Data', 'B1:B2')),
+        K('Data', 'A3'): op('+', cell('Data', 'A8', C), cell('Data', 'A9', C)),
+        K('Data', 'C3'): op('+', cell('Data', 'D12', C), cell('Data', 'B2')),
+    })
+    return {'cells': cells, 'arrays': {}, 'names': {'%s|TENTH' % C: cell('Data', 'A10', C)}, 'sheets': [[H, 'Data'], [C, 'Data']]}
+
+
+FIXED = dict(M.MODELS, anchor=model_anchor, col=model_col, samesheet=model_samesheet, samesheet2=lambda: model_samesheet(M.C, M.B))
 
 
 def spec_of(wb):
